@@ -469,6 +469,8 @@ def rules(rep, m):
     for gk, g in m.globals.items():
         if (g.type or "").replace("const ", "").strip() != "struct cmi_mempool":
             continue
+        if g.const or (g.type or "").strip().startswith("const "):
+            continue            # a constant template that is copied from cannot serve as a pool (alloc / free write it)
         if not (m.rel(g.file) or "").startswith(("src/", "include/")):
             continue
         il = [c for c in kids(g.node) if c["kind"] == "InitListExpr"]
@@ -503,7 +505,12 @@ def rules(rep, m):
                     break
                 uses.setdefault(gk, []).append(("alloc", t, f.name, loc(c)))
             else:
-                t = strip(kids(c)[2], casts=True).get("type")
+                # the type of the pointer as it is passed (implicit conversions to void * aside): for a container_of
+                # expression that is the type of its outer cast, not of the byte arithmetic inside
+                a2 = kids(c)[2]
+                while a2["kind"] in ("ImplicitCastExpr", "ParenExpr") and kids(a2):
+                    a2 = kids(a2)[0]
+                t = a2.get("type")
                 uses.setdefault(gk, []).append(("free", t, f.name, loc(c)))
     for gk, (g, vals) in sorted(pools.items()):
         r6.instance("static pool %s (%s:%s)" % (g.name, m.rel(g.file), g.line))
